@@ -240,3 +240,35 @@ func VerifC17ShellVars() {
 func VerifC17ShellVarsTyped() {
 	VerifC17ShellVars()
 }
+
+// VerifC17ShellVarsUnicode: keys outside ASCII (letters with and without a decomposition, decimal digits of other
+// scripts, full-width forms, combining marks) still give NAME=VALUE lines whose NAME is a shell identifier.
+func VerifC17ShellVarsUnicode() {
+	key := verifConcreteStr(verifPick("key", "a٣", "k३x", "é", "日本", "x_1", "ｋ１", "a-b", "1a", "๓", "áb", "²", "①", "_", "١٢"))
+	v1 := verifStrN("v1", 1, "\x01\x7f")
+	nested := verifChoice("nested", 2) == 1
+	var root *CandidateNode
+	if nested {
+		root = vDoc(vMap(vStr("p"), vMap(vStr(key), vStr(v1))))
+	} else {
+		root = vDoc(vMap(vStr(key), vStr(v1)))
+	}
+	var sb strings.Builder
+	var w io.Writer = c17Writer{&sb}
+	err := NewShellVariablesEncoder().Encode(w, root)
+	verifAssert(err == nil, "C17/shell-encode-error unicode-key")
+	if err != nil {
+		return
+	}
+	out := sb.String()
+	verifObserve("out", out)
+	names, values, ok := c17Assignments(out)
+	verifAssert(ok && len(names) == 1, "C17/shell-output-not-assignments unicode-key")
+	if !ok || len(names) != 1 {
+		return
+	}
+	verifAssert(c17IsName(names[0]), "C17/shell-invalid-variable-name unicode-key")
+	val, okv, safe := c17ReadValue(values[0])
+	verifAssert(okv && verifConcreteBool(verifEqStr(val, v1)) && safe, "C17/shell-value-expands-to-other-value unicode-key")
+	verifCover("C17/shellvars-unicode/end")
+}
